@@ -27,11 +27,36 @@ def cases(prop, tier):
         n = explore.root_event_count(pid, True, set(EVENTS[prop]), depth)
         for i in range(n):
             yield {'g': 'E2', 'pid': pid, 'first': i, 'depth': depth}
+    yield from repeat_cases(prop)
+
+
+INPLACE = [('set_core', 0), ('set_core', 1), ('reduce_dims', 0), ('watch', 0)]
+
+
+def repeat_cases(prop):
+    """E(x), E(x) and E(x), in-place(x), E(x) for every event of the property on every pool object"""
+    for pid in range(explore.NPOOLS):
+        pool = explore.init_pool(pid)
+        for (ev, idx, ai) in explore.enabled_events(pool, None, False):
+            if ev.name not in EVENTS[prop] or ev.inplace:
+                continue
+            yield {'g': 'E2R', 'pid': pid, 'ev': ev.name, 'idx': list(idx), 'ai': ai, 'inpl': None}
+            for ip in INPLACE:
+                yield {'g': 'E2R', 'pid': pid, 'ev': ev.name, 'idx': list(idx), 'ai': ai, 'inpl': list(ip)}
+
+
+def run_repeat_case(prop, c):
+    ntr, nchk, found = explore.run_repeat(c['pid'], c['ev'], tuple(c['idx']), c['ai'], tuple(c['inpl']) if c['inpl'] else None)
+    key = 'E2R|%d|%s|%s|%s|%s' % (c['pid'], c['ev'], c['idx'], c['ai'], c['inpl'])
+    return Outcome(key, True, 'repeat', transitions=ntr, compared=nchk, violations=[V('history.' + cls, d) for cls, d in found])
 
 
 def run_case(prop, c):
+    if c.get('g') == 'E2R':
+        return run_repeat_case(prop, c)
     ex = explore.Explorer(c['pid'], c['depth'], False, None, ('val',), set(EVENTS[prop]))
     ex.run_root(c['first'])
-    viol = [V('history.' + cls[4:], '%s | pool %d history %s' % (detail, c['pid'], json.dumps(hist))) for cls, (hist, detail) in ex.viol.items() if cls.startswith('val.')]
+    viol = [V('history.' + (cls[4:] if cls.startswith('val.') else cls), '%s | pool %d history %s' % (detail, c['pid'], json.dumps(hist)))
+            for cls, (hist, detail) in ex.viol.items() if cls.startswith('val.') or cls.startswith('glob.')]
     return Outcome(sorted('E2|' + k for k in ex.states), True, 'history', transitions=ex.transitions, compared=ex.value_checks, violations=viol,
                    nt_keys=sorted('E2|' + k for k in ex.nontrivial_states), extra={'history_value_checks': ex.value_checks})
